@@ -13,7 +13,7 @@ from .. import core, outparse, probes
 ID = 'C02'
 RULE = ('cases = (abbreviation built from a written tree with repeaters, maxRepeat); enumerated: N in 1..6 x width 1..4 x base in {none,0,1,3,12} x '
         'reverse on/off x repeater placement (self / group / ancestor / group inside repeated parent) x site kind (name, class, id, unquoted and quoted '
-        'attribute value, attribute name, text); every maxRepeat 1..total+1 for all nestings of <= 3 repeaters with counts 1..3 (elements and groups); '
+        'attribute value, attribute name, text); every maxRepeat 1..total+1 for all nestings of <= 3 repeaters with counts 1..3 (1..4 in thorough; elements and groups); '
         'random trees nesting <= 4, N <= 12, <= 2000 copies, random limits. Non-trivial = at least one repeater with N >= 2; distinct by (abbreviation, maxRepeat)')
 ASSUMPTIONS = ['counter of copy i of N: $ -> i, zero padded to the run width, @M -> M+i-1, @- -> N-i+1, @-M -> M+N-i; nearest enclosing repeater (self included), 1 when none',
                'maxRepeat M: every completed copy (children first, document order) uses one unit of a global budget; a repeater stops after the copy at whose '
@@ -21,7 +21,7 @@ ASSUMPTIONS = ['counter of copy i of N: $ -> i, zero padded to the run width, @M
                'under a truncating limit only copy counts and forward numbering are compared (the statement defines reverse numbering for complete repeaters)',
                '*0, @^ (parent numbering) and numbering modifiers without any repeater are outside the statement and not generated']
 FLOORS = {'quick': {'enum:numbering': 6000, 'enum:limit': 5000, 'random': 3000, 'random:limit': 3000},
-          'thorough': {'enum:numbering': 6000, 'enum:limit': 60000, 'random': 150000, 'random:limit': 100000}}
+          'thorough': {'enum:numbering': 6000, 'enum:limit': 30000, 'random': 100000, 'random:limit': 100000}}
 REQUIRED_MONITORS = ['oracle:copies-and-counters', 'probe:repeat-guard-monotone', 'probe:repeater-stack-balanced']
 
 SITE_KINDS = ['name', 'class', 'id', 'attr', 'qattr', 'attrname', 'text']
@@ -252,11 +252,11 @@ def numbering_cases():
         yield nodes
 
 
-def limit_cases():
+def limit_cases(counts_range=(1, 2, 3)):
     "all nestings of <= 3 repeaters (each an element or a group), counts 1..3, plus a sibling repeater met later"
     for depth in (1, 2, 3):
         for kinds in itertools.product('eg', repeat=depth):
-            for counts in itertools.product((1, 2, 3), repeat=depth):
+            for counts in itertools.product(counts_range, repeat=depth):
                 for later in (None, 2):
                     mk = itertools.count(1)
                     inner = None
@@ -322,7 +322,8 @@ def strip_mods_without_repeater(nodes, has_rep=False):
 
 
 def shards(tier, seed):
-    out = [{'kind': 'numbering'}, {'kind': 'limit', 'part': 0, 'nparts': 2}, {'kind': 'limit', 'part': 1, 'nparts': 2}]
+    nl = 2 if tier == 'quick' else 8
+    out = [{'kind': 'numbering'}] + [{'kind': 'limit', 'part': p, 'nparts': nl, 'counts': [1, 2, 3] if tier == 'quick' else [1, 2, 3, 4]} for p in range(nl)]
     n = 6 if tier == 'quick' else 16
     for p in range(n):
         out.append({'kind': 'random', 'n': 1500 if tier == 'quick' else 18000})
@@ -374,7 +375,7 @@ def run_shard(desc, ctx):
                 abbr, exp, trunc = tree_case(nodes, None)
                 mon.check(abbr, exp, trunc, None, 'enum:numbering')
         elif desc['kind'] == 'limit':
-            for i, (nodes, m) in enumerate(limit_cases()):
+            for i, (nodes, m) in enumerate(limit_cases(tuple(desc.get('counts', (1, 2, 3))))):
                 if i % desc['nparts'] != desc['part']:
                     continue
                 abbr, exp, trunc = tree_case(nodes, m)
